@@ -12,9 +12,9 @@ from .recipes import Cast, TEMPLATES, add_step, eager_step, containers_of
 
 PROPERTY = 'C09'
 BOUNDS = ("Baked recipe programs of 1-2 steps (quick: all 1-step programs and every 2-step program whose steps share an object; thorough: all "
-          "2-step and 120 seeded 3-step programs) over the 22 step templates of C08 with symbolic quantities; stage "
+          "2-step and 60 seeded 3-step programs) over the 22 step templates of C08 with symbolic quantities; stage "
           "partition: stage s1 = the first k steps, s2 = the rest, for every split point k; queries for water and NaCl "
-          "(thorough: + DMSO, never used) in umol, mg (thorough: + mmol, uL, g), timeframes all / s1 / s2, destination "
+          "(thorough: + DMSO, never used) in umol, mg (thorough: + uL), timeframes all / s1 / s2 (every split point for programs whose steps share an object), destination "
           "sets: default ('plates'), every single used object, the set of all used objects, and one pair. Oracle: "
           "ledger of every object's contents at each step boundary from the eager interpreter of C08, plus the "
           "amounts discarded by remove steps. Output rounding modelled: |reported - ledger| <= 0.5*10^-digits. "
@@ -41,8 +41,8 @@ def cells(tier, seed):
     else:
         p3 = [p for p in R.programs(3) if len(p) == 3]
         rng.shuffle(p3)
-        progs = p1 + p2 + p3[:120]
-        units = ['umol', 'mmol', 'mg', 'g', 'uL']
+        progs = p1 + p2 + p3[:60]
+        units = ['umol', 'mg', 'uL']
         subs = ['water', 'NaCl', 'DMSO']
     for prog in progs:
         for k in range(0, len(prog) + 1):
@@ -52,6 +52,8 @@ def cells(tier, seed):
                 continue
             if tier == 'thorough' and len(prog) == 3 and k not in (1, 2):
                 continue
+            if tier == 'thorough' and len(prog) == 2 and k != 1 and not R.interacting(prog):
+                continue        # steps that share no object: the stage split between them is enough
             if tier == 'quick':
                 combos = [[('water', 'umol'), ('NaCl', 'mg')]]       # one exploration of the program serves both queries
             else:
